@@ -164,6 +164,7 @@ def histories(thorough):
         ['I 10 20 30 40 50 60 70 80', 'D k = 10', 'D k = 80', 'D k > 30 and k < 60', 'I 45', 'D v = 0'],
         ['I 1 3 5 7 9 11', 'I 2 4 6 8 10 12', 'D k < 7', 'I 0 13', 'D k > 3 and k < 11', 'D k = 12'],
         ['I 1 4 7 10', 'I 2 5 8 11', 'I 3 6 9 12', 'D k >= 4 and k <= 9', 'D k < 3'],
+        ['I 0 5 10 15 20', 'I 1 6 11 16 21', 'I 2 7 12 17 22', 'I 3 8 13 18 23', 'I 4 9 14 19 24', 'D k = 12', 'D k > 20', 'I 12 30'],
     ]
     # inputs larger than one chunk (1024 rows) and one block, deletions spread over several row-sets
     big = [['R 0 1300', 'R 1300 2600', 'D k % 3 = 0', 'D k >= 1000 and k < 1100', 'R 5000 5010', 'D v % 7 = 1', 'D k = 2599'],
@@ -214,6 +215,16 @@ def run_probes(rep, thorough):
                     checks.append((len(stmts) - 1, removed))
                 stmts.append('select k, v from t')
                 checks.append((len(stmts) - 1, sorted(model)))
+                if pk and not big:
+                    # "a table with a primary key is still returned in key order by an ordered scan" (the planner drops the
+                    # sort over a key-ordered disk scan), and key-range scans see exactly the surviving rows of the range
+                    stmts.append('select k from t order by k')
+                    checks.append((len(stmts) - 1, ('seq', sorted(k for k, _ in model))))
+                    ks_ = sorted(k for k, _ in model)
+                    if ks_:
+                        lo, hi = ks_[len(ks_) // 4], ks_[(3 * len(ks_)) // 4]
+                        stmts.append('select k, v from t where k >= %d and k <= %d' % (lo, hi))
+                        checks.append((len(stmts) - 1, sorted(r for r in model if lo <= r[0] <= hi)))
             d = scratch_dir('c07') if eng == 'disk' else None
             inp = {'engine': eng, 'stmts': stmts}
             if d:
@@ -232,6 +243,11 @@ def run_probes(rep, thorough):
                     got = int(o['rows'][0][0]) if o.get('ok') and o.get('rows') else None
                     good = got == want
                     kind = 'delete-count'
+                elif isinstance(want, tuple):
+                    want = want[1]
+                    got = [int(r[0]) for r in o['rows']] if o.get('ok') else None
+                    good = got == want
+                    kind = 'ordered-scan'
                 else:
                     got = sorted((int(r[0]), int(r[1])) for r in o['rows']) if o.get('ok') else None
                     good = got == want
